@@ -219,6 +219,33 @@ def rule_wrapper(ctx):
 def rule_near(ctx):
     p = ctx.p
     ctx.rule("C04.NEAR", "User.get_permissions selects the nearest ancestor entry (min over relative length / max over own depth among is_parent entries), default permissive")
+    # Permission defaults are permissive, is_parent is relative_to success
+    pinit = p.method("Permission", "__init__")
+    kd = {a.arg: d for a, d in zip(pinit.args.kwonlyargs, pinit.args.kw_defaults)}
+    ok = all(isinstance(kd.get(k), ast.Constant) and kd[k].value is True for k in ("readable", "writable"))
+    ctx.ob("C04.NEAR", pinit, "Permission() defaults to readable=True, writable=True", ok, "Permission() no longer defaults to allowed", construct="Permission defaults")
+    for attr in ("readable", "writable"):
+        st = [s for s, t in attr_stores(pinit, attr) if isinstance(s, ast.Assign)]
+        ok = bool(st) and all(isinstance(s.value, ast.Name) and s.value.id == attr for s in st)
+        ctx.ob("C04.NEAR", pinit, f"Permission.{attr} stores the `{attr}` argument", ok, f"Permission.{attr} is not the `{attr}` argument (crossed or constant)", construct=f"Permission.{attr} store")
+    ip = p.method("Permission", "is_parent")
+    body_ok = any(isinstance(t, ast.Try) and any(isinstance(x, ast.Call) and isinstance(x.func, ast.Attribute) and x.func.attr == "relative_to"
+                                                  and src(x.func.value) == [a.arg for a in ip.args.args][1] and [src(z) for z in x.args] == ["self.path"] for s in t.body for x in ast.walk(s))
+                  and any(isinstance(r, ast.Return) and isinstance(r.value, ast.Constant) and r.value.value is True for s in t.body + t.orelse for r in ast.walk(s))
+                  and any(isinstance(r, ast.Return) and isinstance(r.value, ast.Constant) and r.value.value is False for h in t.handlers for s in h.body for r in ast.walk(s))
+                  for t in walk_no_nested(ip)) or any(isinstance(x, ast.Call) and isinstance(x.func, ast.Attribute) and x.func.attr == "is_relative_to" for x in ast.walk(ip))
+    other_ = [a.arg for a in ip.args.args][1] if len(ip.args.args) > 1 else "other"
+    rets_ip = [r.value for r in walk_no_nested(ip) if isinstance(r, ast.Return) and r.value is not None]
+    if not body_ok and len(rets_ip) == 1:
+        e_ = deep_expand(p, rets_ip[0], ip)
+        # component-wise equivalents: `self.path == other or self.path in other.parents`, `other.parts[:len(self.path.parts)] == self.path.parts`
+        if isinstance(e_, ast.BoolOp) and isinstance(e_.op, ast.Or) and len(e_.values) == 2:
+            texts = {src(v) for v in e_.values}
+            body_ok = texts in ({f"self.path == {other_}", f"self.path in {other_}.parents"}, {f"{other_} == self.path", f"self.path in {other_}.parents"})
+        if isinstance(e_, ast.Compare) and len(e_.ops) == 1 and isinstance(e_.ops[0], ast.Eq):
+            texts = {src(e_.left), src(e_.comparators[0])}
+            body_ok = body_ok or texts == {f"{other_}.parts[:len(self.path.parts)]", "self.path.parts"}
+    ctx.ob("C04.NEAR", ip, "is_parent(other) is success of other.relative_to(self.path)", body_ok, "is_parent is no longer `other.relative_to(self.path)` success", construct="is_parent form")
     gpm = p.method("User", "get_permissions")
     sel = [c for c in walk_no_nested(gpm) if isinstance(c, ast.Call) and isinstance(c.func, ast.Name) and c.func.id in ("min", "max", "sorted")]
     if len(sel) != 1:
@@ -238,6 +265,16 @@ def rule_near(ctx):
                     lam = ast.Lambda(args=nf[0].args, body=rets_[0].value)
     if lam is None:
         raise Inconclusive("C04.NEAR: key of the selection is neither a lambda nor a single-return local function")
+    # a key that reads an attribute of the entry is the expression the entry's constructor stores there (`p.depth` with `self.depth = len(self.path.parts)`)
+    pinit_ = p.method("Permission", "__init__")
+    body_ = lam.body
+    inner_ = body_.operand if isinstance(body_, ast.UnaryOp) and isinstance(body_.op, ast.USub) else body_
+    if isinstance(inner_, ast.Attribute) and isinstance(inner_.value, ast.Name) and lam.args.args and inner_.value.id == lam.args.args[0].arg:
+        st_ = [s_ for s_, t_ in attr_stores(pinit_, inner_.attr) if isinstance(s_, ast.Assign)]
+        if len(st_) == 1:
+            repl_ = deep_expand(p, st_[0].value, pinit_)
+            body_ = ast.UnaryOp(op=ast.USub(), operand=repl_) if inner_ is not body_ else repl_
+            lam = ast.Lambda(args=lam.args, body=body_)
     ks = src(lam.body)
     has_len = any(isinstance(x, ast.Call) and isinstance(x.func, ast.Name) and x.func.id == "len" for x in ast.walk(lam.body))
     negated = isinstance(lam.body, ast.UnaryOp) and isinstance(lam.body.op, ast.USub)
@@ -260,24 +297,15 @@ def rule_near(ctx):
     ctx.ob("C04.NEAR", c, "candidates are drawn from all of self.permissions", over_all, "the selection does not range over self.permissions", construct="near:not over permissions")
     dflt = expand(p, kwarg(c, "default"), gpm) if kwarg(c, "default") is not None else None
     ok = isinstance(dflt, ast.Call) and last_attr(dflt.func) == "Permission" and not dflt.args and not dflt.keywords
+    if dflt is None and c.args and isinstance(c.args[0], ast.Name):
+        # explicit form: `if not <candidates>: return Permission()` before the selection
+        for n_ in walk_no_nested(gpm):
+            if isinstance(n_, ast.If) and isinstance(n_.test, ast.UnaryOp) and isinstance(n_.test.op, ast.Not) and src(n_.test.operand) == c.args[0].id and n_.body \
+                    and isinstance(n_.body[-1], ast.Return) and isinstance(n_.body[-1].value, ast.Call):
+                dflt = deep_expand(p, n_.body[-1].value, gpm)
+                ok = last_attr(dflt.func) == "Permission" and not dflt.args and not dflt.keywords
     ctx.ob("C04.NEAR", c, "the default (no entry applies) is the permissive Permission()", ok,
            f"default of the selection is `{src(dflt) if dflt is not None else None}`, not the permissive Permission()", construct="near:default")
-    # Permission defaults are permissive, is_parent is relative_to success
-    pinit = p.method("Permission", "__init__")
-    kd = {a.arg: d for a, d in zip(pinit.args.kwonlyargs, pinit.args.kw_defaults)}
-    ok = all(isinstance(kd.get(k), ast.Constant) and kd[k].value is True for k in ("readable", "writable"))
-    ctx.ob("C04.NEAR", pinit, "Permission() defaults to readable=True, writable=True", ok, "Permission() no longer defaults to allowed", construct="Permission defaults")
-    for attr in ("readable", "writable"):
-        st = [s for s, t in attr_stores(pinit, attr) if isinstance(s, ast.Assign)]
-        ok = bool(st) and all(isinstance(s.value, ast.Name) and s.value.id == attr for s in st)
-        ctx.ob("C04.NEAR", pinit, f"Permission.{attr} stores the `{attr}` argument", ok, f"Permission.{attr} is not the `{attr}` argument (crossed or constant)", construct=f"Permission.{attr} store")
-    ip = p.method("Permission", "is_parent")
-    body_ok = any(isinstance(t, ast.Try) and any(isinstance(x, ast.Call) and isinstance(x.func, ast.Attribute) and x.func.attr == "relative_to"
-                                                  and src(x.func.value) == [a.arg for a in ip.args.args][1] and [src(z) for z in x.args] == ["self.path"] for s in t.body for x in ast.walk(s))
-                  and any(isinstance(r, ast.Return) and isinstance(r.value, ast.Constant) and r.value.value is True for s in t.body + t.orelse for r in ast.walk(s))
-                  and any(isinstance(r, ast.Return) and isinstance(r.value, ast.Constant) and r.value.value is False for h in t.handlers for s in h.body for r in ast.walk(s))
-                  for t in walk_no_nested(ip)) or any(isinstance(x, ast.Call) and isinstance(x.func, ast.Attribute) and x.func.attr == "is_relative_to" for x in ast.walk(ip))
-    ctx.ob("C04.NEAR", ip, "is_parent(other) is success of other.relative_to(self.path)", body_ok, "is_parent is no longer `other.relative_to(self.path)` success", construct="is_parent form")
 
 
 def rule_same(ctx):
@@ -307,6 +335,41 @@ def rule_same(ctx):
         ctx.ob("C04.SAME", late if late is not None else fn, f"{name}: the handler resolves its path before its first suspension point", late is None,
                f"{name}: the handler resolves the path after a suspension point; the working directory may have changed since the permission check",
                construct=f"{name}:resolver after suspension")
+    # what a guarded handler stores into the session's path state is the very path its guards resolved (the same wire argument), not a path derived from it
+    for verb, name, fn in p.handlers():
+        if not any(d.name in ("PathPermissions", "PathConditions") for d in p.decorators(fn)):
+            continue
+        conn, rest = p.handler_params(fn)
+
+        def guarded_component(v, depth=3):
+            """v is a component of get_paths(<session>, <the handler's own wire argument>)"""
+            if depth < 0:
+                return False
+            if isinstance(v, ast.Subscript) and isinstance(v.value, ast.Call):
+                c = v.value
+                return (dotted(c.func) or "").endswith(".get_paths") and len(c.args) == 2 and isinstance(c.args[1], ast.Name) and c.args[1].id == rest
+            if isinstance(v, ast.Name):
+                ds = local_defs(fn, v.id)
+                if not ds:
+                    return False
+                for kind, node, extra in ds:
+                    if kind == "unpack" and isinstance(node, ast.Call) and (dotted(node.func) or "").endswith(".get_paths") and len(node.args) == 2 \
+                            and isinstance(node.args[1], ast.Name) and node.args[1].id == rest:
+                        continue
+                    if kind == "assign" and isinstance(node, ast.expr) and guarded_component(node, depth - 1):
+                        continue
+                    return False
+                return True
+            return False
+        for st in walk_no_nested(fn):
+            if isinstance(st, ast.Assign):
+                for t in st.targets:
+                    if isinstance(t, ast.Attribute) and isinstance(t.value, ast.Name) and t.value.id == conn and t.attr in ("current_directory", "rename_from"):
+                        ok = guarded_component(st.value)
+                        ctx.ob("C04.SAME", st, f"{name}: session.{t.attr} receives the path the guards checked", ok,
+                               f"{name}: session.{t.attr} is set to `{src(st.value)[:50]}`, which is not the path the handler's guards resolved and checked "
+                               f"(existence / kind / permission were decided for the wire argument `{rest}`): the command acts on a location that was never authorised",
+                               construct=f"{name}:acts on {src(st.value)[:40]}")
     # the wrapper itself: no suspension point between its resolution and the call of the wrapped handler other than the lookup
     w = p.wrapper_of("PathPermissions")
     susp = [a for a in walk_no_nested(w) if isinstance(a, ast.Await) and may_suspend_await(p, a, w)
@@ -317,4 +380,11 @@ def rule_same(ctx):
         ctx.floor_errors.append(f"rule=C04.SAME: {n} guarded handlers (floor 10)")
 
 
-RULES = [rule_kind, rule_wrapper, rule_near, rule_same]
+def rule_alias(ctx):
+    from .c02 import rule_res
+    ctx.rule("C04.ALIAS", "the virtual path handed to the permission lookup is the folded absolute form: every spelling of a location ('..' detours, '//', relative forms) gives "
+                          "the same path and therefore the same entry (shared with C02.RES)")
+    ctx.borrow(rule_res, {"C02.RES": "C04.ALIAS"})
+
+
+RULES = [rule_kind, rule_wrapper, rule_near, rule_same, rule_alias]
